@@ -19,14 +19,15 @@ RULE = ('the real Bus and 2-4 real DBusClientConnections (real handshake, Hello,
         'ran the method exactly once per call with equal arguments, on the instance exported by the addressed client; the caller got the documented return-value convention '
         'applied to what the method returned, or a RemoteError whose name and message mirror what it raised; no result is '
         'crossed between concurrent calls. Non-trivial = >=2 calls in flight, or an introspected proxy, or a '
-        'container-typed argument; distinct = distinct case JSON.')
+        'container-typed argument; distinct = distinct case JSON. In every third scenario the bus has a history: somebody connected '
+        'before the participants and left, a bystander connected after (all unique names must differ).')
 ASSUMPTIONS = ['links are FIFO byte streams; the bus offers ANONYMOUS only in this harness (keeps the cookie mechanism away '
                'from the real home directory)',
                'set-up traffic (handshake, Hello, RequestName, introspection) is delivered FIFO: only the calls are scheduled']
 
 IFACE = 'org.verif.Calc'
 SVC = 'org.verif.Service'
-TEXTS = {'plain': 'it broke', 'unicode': 'käput €', 'empty': ''}
+TEXTS = {'plain': 'it broke', 'unicode': 'käput €', 'empty': '', 'format': '100% {broken} %s %(x)d \\n'}
 
 
 class _Holder:
@@ -65,12 +66,25 @@ def _setup(case):
     from txdbus import interface as I
     from txdbus import objects as O
     net = N.BusNet()
+    # the bus has a history: in every third scenario somebody connected before the participants and leaves once they
+    # are all there, and a newcomer (who takes no part) connects after that
+    churn = _churn(case)
+    early = net.add_client() if churn else None
     conns = [net.add_client() for _ in range(case['nclients'])]
     if not net.run_fifo():
         raise N.RigFailure('handshake did not quiesce')
-    for i, res in enumerate(net.connect_results):
+    for i, res in enumerate(net.connect_results[1 if churn else 0:]):
         if len(res) != 1 or res[0] is not conns[i]:
             raise N.RigFailure('client %d did not connect: %r' % (i, res))
+    if churn:
+        N.close(net.links[0].c)
+        N.close(net.links[0].s)
+        late = net.add_client()
+        if not net.run_fifo() or net.connect_results[-1] != [late]:
+            raise N.RigFailure('the late client did not connect: %r' % (net.connect_results[-1],))
+        names = [c.busName for c in conns + [late]]
+        if len(set(names)) != len(names):
+            raise N.RigFailure('two live connections share a unique name: %r' % (names,))
     state = {'log': [], 'outcomes': {}, 'deferreds': {}}
     methods = [I.Method(m['name'], 'u' + m['in'], m['out']) for m in case['methods']]
     # an older, different declaration of the same interface name exists in this process; declaring it again
@@ -124,6 +138,10 @@ def _setup(case):
         if not net.run_fifo() or r != [1]:
             raise N.RigFailure('exporter %d could not take its name: %r' % (ei, r))
     return net, conns, iface, state
+
+
+def _churn(case):
+    return case.get('churn', (case['nclients'] + len(case['calls'])) % 3 == 0)
 
 
 def _exporters(case):
@@ -237,6 +255,8 @@ def _execute(case, choices=None):
             drive()
         # ---- judge at quiescence
         for li, l in enumerate(net.links):
+            if li == 0 and _churn(case):
+                continue        # the early client: the harness closed that one itself
             if l.c.transport.disconnected or l.s.transport.disconnected:
                 out.append(Disc('link.lost', 'connection %d was dropped' % li))
         for tok, call in enumerate(case['calls'], start=1):
@@ -327,6 +347,8 @@ def classify(case):
     if len(case['calls']) >= 2:
         nt = True
         labels.append('concurrent_calls')
+    if _churn(case):
+        labels.append('bus_membership_churn')
     if any(c.get('timeout') for c in case['calls']):
         labels.append('call_with_deadline')
     for c in case['calls']:
@@ -366,7 +388,7 @@ def scenario(draw, tier, dfs=False):
               'pres': draw(S.presentation), 'as_tuple': draw(st.booleans())}
         if kind in ('raise', 'deferred-fail'):
             oc['exc'] = draw(st.sampled_from(['plain', 'named', 'nested', 'local']))
-            oc['text'] = draw(st.sampled_from(['plain', 'unicode', 'empty']))
+            oc['text'] = draw(st.sampled_from(['plain', 'unicode', 'empty', 'format']))
         calls.append({'caller': draw(st.integers(0, 3)), 'method': mi,
                       'trees': [draw(S.tree_for(t, 2)) for t in R.split_inner(spec['in'])],
                       'pres': draw(S.presentation), 'outcome': oc,
